@@ -1,35 +1,31 @@
 /-
-  C03 — typed `pg.List` (pyglove/core/symbolic/list.py) over the value-spec model: every write
-  primitive formalizes the value with `element.apply` (`_formalized_value`, 436-451) before it is
-  stored; some mutators check the size bounds explicitly (646-731).
+  C03 — typed `pg.List`, `pg.Dict` and `pg.Object` (pyglove/core/symbolic/list.py, dict.py,
+  object.py) over the value-spec model: every write primitive formalizes the value with the
+  element / field spec (`_formalized_value`: list.py 436-451, dict.py 587-611) before it is stored.
 
-  Modelled: construction with `value_spec=` (`use_value_spec` applies the List spec), `append`,
-  `insert` (0 ≤ index ≤ len), `__setitem__` / `__delitem__` / `pop` with an int index, `remove`,
-  `extend`, `clear`; type check on, `allow_partial` off, notification irrelevant.  Not modelled
-  (C03 report): typed pg.Dict / pg.Object, slice assignment, `rebind`, symbolic element values.
+  The content of a typed container is a `Val` (nested typed containers are nested `Val`s whose
+  own spec is the element / field spec: `apply` recurses into them).  The model mirrors /repo with
+  fixes/C03-F08.patch and fixes/C03-F60.patch applied:
+    * the size bounds are checked inside the list write primitive (growth) and in `__delitem__`
+      (shrinking), so every write path consults them;
+    * a rejected `Dict.clear()` restores content and value spec.
+
+  Modelled write paths.  List: construction, append, insert, `l[i] = v`, `l[a:b:c] = vs`, `del l[i]`,
+  `del l[a:b:c]`, pop, remove, extend / `+=`, `*=`, clear, sort, reverse, rebind (single / batched,
+  with `Insertion` and `MISSING_VALUE`, past-the-end indices).  Dict: construction, `d[k] = v`,
+  `del d[k]` / pop, setdefault, update / `|=` / rebind (batched, `MISSING_VALUE` deletes or
+  restores the default), clear, popitem.  Object: `__init__`, `__setattr__`, rebind (the attribute
+  container is a typed Dict with const keys).  `allow_partial` (constructor flag or scope) is the
+  parameter `p` of the Dict / Object operations; typed lists are modelled with `allow_partial` off.
+  Not modelled: type-check off, sealed / accessor_writable (C08), notification (C09), nested
+  *paths* in rebind (a nested container is rewritten through its own typed handle), symbolic
+  re-parenting (C01).
 -/
 import PgModel.Typing
 namespace Pg.C03
 open Pg.Typing
 
-/-- A `pg.List` bound to `pg.typing.List(elem, min_size=mn, max_size=mx)`. -/
-structure TList where
-  elem : Spec
-  mn : Nat
-  mx : Option Nat
-  items : List Val
-
-inductive Op where
-  | append (v : Val)
-  | insert (i : Nat) (v : Val)
-  | setitem (i : Int) (v : Val)
-  | delitem (i : Int)
-  | pop (i : Int)
-  | remove (v : Val)
-  | extend (vs : List Val)
-  | clear
-
-/-- Error classes of a list mutator (`index`: IndexError, not a schema rejection). -/
+/-- Error classes of a mutator (`index`: IndexError, not a schema rejection). -/
 inductive E where
   | type | value | key | index
   deriving DecidableEq, Repr
@@ -38,6 +34,15 @@ def ofErr : Err → E
   | .type => .type
   | .value => .value
   | .key => .key
+
+/-! ## Typed list -/
+
+/-- A `pg.List` bound to `pg.typing.List(elem, min_size=mn, max_size=mx)`. -/
+structure TList where
+  elem : Spec
+  mn : Nat
+  mx : Option Nat
+  items : List Val
 
 /-- `_formalized_value`: `element.apply(value, allow_partial=False)`. -/
 def formalize (env : Env) (l : TList) (v : Val) : Except E Val :=
@@ -55,6 +60,75 @@ def normIndex (len : Nat) (i : Int) : Option Nat :=
   if i < -(len : Int) || i ≥ (len : Int) then none
   else some (if i < 0 then (i + len).toNat else i.toNat)
 
+/-- `list.insert` position for an arbitrary int index. -/
+def insertPos (len : Nat) (i : Int) : Nat :=
+  if i < 0 then (if i + len < 0 then 0 else (i + len).toNat)
+  else if i ≥ len then len else i.toNat
+
+def insertAt (xs : List Val) (k : Nat) (v : Val) : List Val := xs.take k ++ [v] ++ xs.drop k
+
+/-- `_set_item_without_permission_check(key, value)` (397-434, with the F08 repair): past-the-end
+keys append (`MISSING_VALUE` is a no-op there), `Insertion` inserts, otherwise the item is
+replaced; growth is refused at `max_size`; the stored value is the formalized one. -/
+def listPrim (env : Env) (l : TList) (idx : Int) (ins : Bool) (v : Val) : TList × Option E :=
+  let len := l.items.length
+  if idx ≥ (len : Int) then
+    if v.isMissing then (l, none)
+    else if atMax l 1 then (l, some .value)
+    else match formalize env l v with
+      | .error e => (l, some e)
+      | .ok w => ({ l with items := l.items ++ [w] }, none)
+  else if ins then
+    if atMax l 1 then (l, some .value)
+    else match formalize env l v with
+      | .error e => (l, some e)
+      | .ok w => ({ l with items := insertAt l.items (insertPos len idx) w }, none)
+  else
+    match normIndex len idx with
+    | none => (l, some .index)
+    | some k => match formalize env l v with
+      | .error e => (l, some e)
+      | .ok w => ({ l with items := l.items.set k w }, none)
+
+/-- Consecutive primitive writes at `pos, pos + step, …`; the first failure stops the batch and
+keeps what was written before it. -/
+def primLoop (env : Env) (l : TList) (pos step : Int) : List (Bool × Val) → TList × Option E
+  | [] => (l, none)
+  | (ins, v) :: rest =>
+    match listPrim env l pos ins v with
+    | (l', none) => primLoop env l' (pos + step) step rest
+    | (l', some e) => (l', some e)
+
+/-- Primitive writes at explicit positions (rebind). -/
+def primAt (env : Env) (l : TList) : List (Nat × Bool × Val) → TList × Option E
+  | [] => (l, none)
+  | (k, ins, v) :: rest =>
+    match listPrim env l k ins v with
+    | (l', none) => primAt env l' rest
+    | (l', some e) => (l', some e)
+
+/-- `slice.indices(len)` (CPython `PySlice_AdjustIndices`) for explicit bounds. -/
+def sliceAdjust (len : Nat) (start stop step : Int) : Int × Int :=
+  let n : Int := len
+  let adj (x : Int) : Int :=
+    if x < 0 then (if x + n < 0 then (if step < 0 then -1 else 0) else x + n)
+    else if x ≥ n then (if step < 0 then n - 1 else n) else x
+  (adj start, adj stop)
+
+/-- `len(range(start, stop, step))`. -/
+def rangeLen (start stop step : Int) : Nat :=
+  if step > 0 then (if start < stop then ((stop - start - 1) / step + 1).toNat else 0)
+  else if step < 0 then (if stop < start then ((start - stop - 1) / (-step) + 1).toNat else 0)
+  else 0
+
+/-- The positions `range(start, stop, step)` as naturals (after adjustment they are in range). -/
+def rangeIdx (start step : Int) : Nat → List Nat
+  | 0 => []
+  | n + 1 => start.toNat :: rangeIdx (start + step) step n
+
+def eraseIdxs (xs : List Val) (ks : List Nat) : List Val :=
+  (xs.zipIdx.filter (fun p => !ks.contains p.2)).map (·.1)
+
 /-- First position whose item `== value` (`remove`, 680-690). -/
 def findEq (v : Val) : List Val → Option Nat
   | [] => none
@@ -64,48 +138,121 @@ def findEq (v : Val) : List Val → Option Nat
 def extendLoop (env : Env) (l : TList) : List Val → TList × Option E
   | [] => (l, none)
   | v :: vs =>
-    match formalize env l v with
-    | .error e => (l, some e)
-    | .ok v' => extendLoop env { l with items := l.items ++ [v'] } vs
+    match listPrim env l l.items.length false v with
+    | (l', none) => extendLoop env l' vs
+    | (l', some e) => (l', some e)
 
-/-- One mutating call: the list afterwards and the exception class, if any. -/
-def step (env : Env) (l : TList) : Op → TList × Option E
+/-- Python `<` on the atoms a sortable typed list holds (numbers by value, strings by code point). -/
+def valLt (a b : Val) : Option Bool :=
+  match a.num?, b.num? with
+  | some x, some y => some (Num.lt x y)
+  | _, _ => match a, b with
+    | .str s, .str t => some (decide (s < t))
+    | _, _ => none
+
+def insertSorted (x : Val) : List Val → List Val
+  | [] => [x]
+  | y :: ys => if valLt y x == some true then y :: insertSorted x ys else x :: y :: ys
+
+/-- Stable sort (`list.sort`) by `valLt`. -/
+def sortVals (xs : List Val) : List Val := xs.reverse.foldl (fun acc x => insertSorted x acc) []
+
+def sortable : List Val → Bool
+  | [] => true
+  | [_] => true
+  | x :: y :: rest => (valLt x y).isSome && sortable (y :: rest)
+
+inductive ListOp where
+  | append (v : Val)
+  | insert (i : Int) (v : Val)
+  | setitem (i : Int) (v : Val)
+  | setslice (start stop step : Int) (vs : List Val)
+  | delitem (i : Int)
+  | delslice (start stop step : Int)
+  | pop (i : Int)
+  | remove (v : Val)
+  | extend (vs : List Val)          -- also `+=`
+  | imul (n : Int)
+  | clear
+  | sort
+  | reverse
+  /-- `rebind({k: v | Insertion(v) | MISSING_VALUE, …})` (keys distinct). -/
+  | rebind (kvs : List (Nat × Bool × Val))
+
+def belowMin (l : TList) (removed : Nat) : Bool := decide (l.items.length < l.mn + removed)
+
+def sortDesc (kvs : List (Nat × Bool × Val)) : List (Nat × Bool × Val) :=
+  kvs.foldl (fun acc x =>
+    let rec ins : List (Nat × Bool × Val) → List (Nat × Bool × Val)
+      | [] => [x]
+      | y :: ys => if y.1 < x.1 then x :: y :: ys else y :: ins ys
+    ins acc) []
+
+/-- One mutating call on a typed list: the list afterwards and the exception class, if any. -/
+def listStep (env : Env) (l : TList) : ListOp → TList × Option E
   | .append v =>
     if atMax l 1 then (l, some .value)                                    -- 650
-    else match formalize env l v with
-      | .error e => (l, some e)
-      | .ok v' => ({ l with items := l.items ++ [v'] }, none)
+    else listPrim env l l.items.length false v
   | .insert i v =>
     if atMax l 1 then (l, some .value)                                    -- 662
-    else match formalize env l v with
-      | .error e => (l, some e)
-      | .ok v' => ({ l with items := l.items.take i ++ [v'] ++ l.items.drop i }, none)
+    else listPrim env l i true v
   | .setitem i v =>
     match normIndex l.items.length i with
     | none => (l, some .index)                                            -- 566
-    | some k => match formalize env l v with
-      | .error e => (l, some e)
-      | .ok v' => ({ l with items := l.items.set k v' }, none)
+    | some _ => listPrim env l i false v
+  | .setslice start stop step vs =>                                       -- 543-564
+    -- every replacement is formalized before anything is stored
+    match vs.mapM (formalize env l) with
+    | .error e => (l, some e)
+    | .ok reps =>
+      let (s, e) := sliceAdjust l.items.length start stop step
+      let size := rangeLen s e step
+      if step == 1 then
+        primLoop env l s 1
+          ((reps.take size).map (fun r => (false, r)) ++ (reps.drop size).map (fun r => (true, r))
+            ++ List.replicate (size - reps.length) (false, Val.missing))
+      else if size != reps.length then (l, some .value)
+      else if step < 0 then
+        primLoop env l (s + ((size : Int) - 1) * step) (-step) (reps.reverse.map (fun r => (false, r)))
+      else primLoop env l s step (reps.map (fun r => (false, r)))
   | .delitem i =>
     match normIndex l.items.length i with
     | none => (l, some .index)                                            -- 594
-    | some k => ({ l with items := l.items.eraseIdx k }, none)            -- no min_size check (F08)
+    | some k =>
+      if belowMin l 1 then (l, some .value)                               -- F08 repair
+      else ({ l with items := l.items.eraseIdx k }, none)
+  | .delslice start stop step =>
+    let (s, e) := sliceAdjust l.items.length start stop step
+    let ks := rangeIdx s step (rangeLen s e step)
+    if belowMin l ks.length then (l, some .value)                         -- F08 repair
+    else ({ l with items := eraseIdxs l.items ks }, none)
   | .pop i =>
     match normIndex l.items.length i with
     | none => (l, some .index)                                            -- 672
-    | some k => ({ l with items := l.items.eraseIdx k }, none)            -- no min_size check (F08)
+    | some k =>
+      if belowMin l 1 then (l, some .value)
+      else ({ l with items := l.items.eraseIdx k }, none)
   | .remove v =>
     match findEq v l.items with
     | none => (l, some .value)                                            -- 690
     | some k =>
-      if l.mn == l.items.length then (l, some .value)                     -- 684
+      if belowMin l 1 then (l, some .value)                               -- 684
       else ({ l with items := l.items.eraseIdx k }, none)
   | .extend vs =>
     if atMax l vs.length then (l, some .value)                            -- 711
     else extendLoop env l vs
+  | .imul n =>
+    if n ≤ 0 then
+      if l.mn > 0 then (l, some .value) else ({ l with items := [] }, none)
+    else
+      let vs := (List.replicate (n.toNat - 1) l.items).flatten
+      if atMax l vs.length then (l, some .value) else extendLoop env l vs
   | .clear =>
     if l.mn > 0 then (l, some .value)                                     -- 729
     else ({ l with items := [] }, none)
+  | .sort => if sortable (sortVals l.items) && sortable l.items then ({ l with items := sortVals l.items }, none) else (l, some .type)
+  | .reverse => ({ l with items := l.items.reverse }, none)
+  | .rebind kvs => primAt env l (sortDesc kvs)                            -- 347-364: largest key first
 
 /-- `pg.List(items, value_spec=List(elem, mn, mx))`: `use_value_spec` applies the list spec. -/
 def construct (env : Env) (elem : Spec) (mn : Nat) (mx : Option Nat) (items : List Val) : Except E TList :=
@@ -119,10 +266,141 @@ to itself, and the length is within the declared bounds. -/
 def Conforms (env : Env) (l : TList) : Prop :=
   (∀ x ∈ l.items, apply env l.elem false x = .ok x) ∧ sizeOk l.items.length l.mn l.mx = true
 
-/-- Decidable version used by the driver. -/
+/-- Structural equality of values (for the executable conformance test of the drivers). -/
+def sameB (x y : Val) : Bool := Val.pyEq x y && (x.ty == y.ty)
+
 def conformsB (env : Env) (l : TList) : Bool :=
   l.items.all (fun x => match apply env l.elem false x with
-    | .ok y => Val.pyEq x y && (x.ty == y.ty)
+    | .ok y => sameB x y
     | .error _ => false) && sizeOk l.items.length l.mn l.mx
+
+/-! ## Typed dict / object -/
+
+/-- A `pg.Dict` bound to `pg.typing.Dict(fields)`, or the attribute container of a `pg.Object`
+whose class schema is `fields`. -/
+structure TDict where
+  fields : List Field
+  kvs : List (String × Val)
+
+/-- `Schema.get_field(key)` (class_schema.py 1074-1093): the const key first, else the first
+matching non-const key spec. -/
+def getField (env : Env) : List Field → String → Option Field
+  | fields, k =>
+    match fields.find? (fun f => f.key == KeySpec.const k) with
+    | some f => some f
+    | none => fields.find? (fun f => !f.key.isConst && f.key.matches env k)
+
+def eraseKey (kvs : List (String × Val)) (k : String) : List (String × Val) :=
+  kvs.filter (fun kv => kv.1 != k)
+
+/-- A value handed to a write: a plain Python value, or an already typed symbolic container
+(`pg.List` / `pg.Dict` bound to the value spec `src`, created with `allow_partial = sp`). -/
+inductive Arg where
+  | plain (v : Val)
+  | typed (src : Spec) (sp : Bool) (v : Val)
+
+def Arg.val : Arg → Val
+  | .plain v => v
+  | .typed _ _ v => v
+
+/-- `field.apply(value)` for a write argument.  A typed container takes the `CustomTyping` route
+(value_specs.py 280-287; `custom_apply`, list.py / dict.py): the destination must declare itself
+compatible with the bound spec (else ValueError); if the partial modes agree the value is
+*trusted* and stored without validation, otherwise it is validated by the standard apply
+(with the F62 repair: a partial container is refused by a destination that requires a complete
+value).  `partialB` is `value.is_partial`. -/
+def applyArg (env : Env) (dest : Spec) (p : Bool) (partialB : Val → Bool) : Arg → R Val
+  | .plain v => apply env dest p v
+  | .typed src sp v =>
+    if dest.flags.frozen then apply env dest p v
+    else if !isCompatible env dest src then .error .value
+    else if sp == p then .ok v
+    else if !p && partialB v then .error .value
+    else apply env dest p v
+
+/-- `MaybePartial.is_partial` of a container value: some member is `MISSING_VALUE` (deep). -/
+partial def hasMissing : Val → Bool
+  | .missing => true
+  | .list xs => xs.any hasMissing
+  | .tuple xs => xs.any hasMissing
+  | .dict kvs => kvs.any (fun kv => hasMissing kv.2)
+  | _ => false
+
+/-- `_set_item_without_permission_check(key, value)` of a typed Dict (dict.py 535-585):
+undeclared keys are refused; `MISSING_VALUE` deletes a dynamic key and restores the default of a
+const key; everything stored went through `field.apply`. -/
+def dictPrim (env : Env) (p : Bool) (pb : Val → Bool) (d : TDict) (k : String) (a : Arg) : TDict × Option E :=
+  match getField env d.fields k with
+  | none => (d, some .key)
+  | some (.mk ks spec) =>
+    if a.val.isMissing && !ks.isConst then ({ d with kvs := eraseKey d.kvs k }, none)
+    else
+      let a0 := if a.val.isMissing then Arg.plain spec.flags.default else a
+      match applyArg env spec p pb a0 with
+      | .error e => (d, some (ofErr e))
+      | .ok w => ({ d with kvs := setKey d.kvs k w }, none)
+
+/-- Batched writes (`rebind` / `update`), in the given order; a failure keeps the applied prefix. -/
+def dictBatch (env : Env) (p : Bool) (pb : Val → Bool) (d : TDict) : List (String × Arg) → TDict × Option E
+  | [] => (d, none)
+  | (k, v) :: rest =>
+    match dictPrim env p pb d k v with
+    | (d', none) => dictBatch env p pb d' rest
+    | (d', some e) => (d', some e)
+
+inductive DictOp where
+  | setitem (k : String) (v : Arg)          -- also `__setattr__`
+  | delitem (k : String)                    -- also `pop(k)`
+  | setdefault (k : String) (v : Arg)
+  | update (kvs : List (String × Arg))      -- also `|=` and `rebind`
+  | clear
+  | popitem
+
+def dictStep (env : Env) (p : Bool) (pb : Val → Bool) (d : TDict) : DictOp → TDict × Option E
+  | .setitem k v => dictPrim env p pb d k v
+  | .delitem k =>
+    match lookup d.kvs k with
+    | none => (d, some .key)                                              -- 723
+    | some _ => dictPrim env p pb d k (.plain .missing)
+  | .setdefault k v =>
+    match lookup d.kvs k with
+    | some x => if x.isMissing then dictPrim env p pb d k v else (d, none)   -- 798-806
+    | none => dictPrim env p pb d k v
+  | .update kvs => dictBatch env p pb d kvs
+  | .clear =>                                                             -- 787-796 with the F60 repair
+    match schemaApply env d.fields p [] with
+    | .ok kvs => ({ d with kvs := kvs }, none)
+    | .error e => (d, some (ofErr e))
+  | .popitem => (d, some .value)                                          -- 780-782
+
+/-- `pg.Dict(value, value_spec=Dict(fields), allow_partial=p)`. -/
+def constructDict (env : Env) (p : Bool) (fields : List Field) (kvs : List (String × Val)) : Except E TDict :=
+  match schemaApply env fields p kvs with
+  | .ok kvs' => .ok ⟨fields, kvs'⟩
+  | .error e => .error (ofErr e)
+
+/-- `Object.__init__(**kwargs)` (object.py 601-730): unexpected and missing required keyword
+arguments are `TypeError`s, then the attribute container is a typed Dict. -/
+def constructObject (env : Env) (p : Bool) (fields : List Field) (kwargs : List (String × Val)) : Except E TDict :=
+  if !(unmatchedKeys env fields kwargs).isEmpty then .error .type
+  else if !p && (fields.any fun f => match f.key with
+      | .const k => f.value.flags.default.isMissing && (lookup kwargs k).isNone
+      | _ => false) then .error .type
+  else constructDict env p fields kwargs
+
+/-- The schema invariant of a typed dict / object: only declared keys, each value accepted by its
+field and mapped to itself (hence frozen fields hold their frozen value and nested typed
+containers conform), every const key present. -/
+def ConformsD (env : Env) (p : Bool) (d : TDict) : Prop :=
+  (∀ kv ∈ d.kvs, ∃ f, getField env d.fields kv.1 = some f ∧ apply env f.value p kv.2 = .ok kv.2) ∧
+  (∀ k ∈ constKeys d.fields, (lookup d.kvs k).isSome = true)
+
+def conformsDB (env : Env) (p : Bool) (d : TDict) : Bool :=
+  d.kvs.all (fun kv => match getField env d.fields kv.1 with
+    | none => false
+    | some f => match apply env f.value p kv.2 with
+      | .ok y => sameB kv.2 y
+      | .error _ => false) &&
+  (constKeys d.fields).all (fun k => (lookup d.kvs k).isSome)
 
 end Pg.C03
